@@ -15,10 +15,10 @@ import re
 
 from ..interp import Interp, Hooks, Budget
 from ..state import State, Obj, IntV, PtrV, NULL, MAXLEN
-from ..terms import Lin, ZERO
+from ..terms import Lin, ZERO, eval_lin
 from . import own
 from .c08 import string_scene, SliceHooks
-from .common import short, fn_loc
+from .common import short, fn_loc, robust
 
 LEVEL = 'other'
 EXPLANATION = ('abstract interpretation of both decoder cores over a symbolic string and a caller buffer of symbolic size: sign tests '
@@ -81,6 +81,19 @@ def cores(run, m, F, E):
                     p = e[3]
                     env = e[6] if len(e) > 6 else None
                     what = 'store past the caller\'s buffer' if p.obj == 'OUT' else 'read outside the string' if p.obj == entry['storage'].obj else None
+                    if what is None and isinstance(p, PtrV) and p.obj is not None and p.obj.startswith('G:') and isinstance(e[5], Lin) and not e[5].t \
+                            and (isinstance(e[4], int) or (isinstance(e[4], Lin) and not e[4].t)) and robust([p.off]):
+                        # a lookup in a constant table of the program with an index outside it: a finding when the facts of the whole
+                        # path have a model with the index outside (the units of the string are inputs)
+                        nb_ = e[4] if isinstance(e[4], int) else e[4].c
+                        envt = s2.find_model([p.off], lambda vv, n_=nb_, sz=e[5].c: vv[0] < 0 or vv[0] + n_ > sz)
+                        if envt is not None:
+                            try:
+                                ov = eval_lin(p.off, envt)
+                            except KeyError:
+                                ov = None
+                            bound_p.append('lookup outside the constant table %s (%d bytes) at line %d: %d byte(s) at offset %s; witness %s' % (
+                                m.dem(p.obj[2:])[:60], e[5].c, e[1].line, nb_, ov if ov is not None else repr(p.off), own.fmt_env(envt)))
                     if what is None:
                         continue
                     msg = '%s: %r byte(s) at offset %r (capacity %r) at line %d' % (what, e[4], p.off - (entry['storage'].off if p.obj != 'OUT' else ZERO), e[5], e[1].line)
